@@ -149,9 +149,8 @@ class C12(Case):
                     with alternative(self.node_cond(m, x)):
                         self.emit_body(m, v, x)
 
-    def run(self, mk):
+    def prepare(self, mk):
         sp = self.spec
-        tree = sp["tree"]
         n = sp.get("n", 2)
         items = S.make_objects(mk, Item, "x", n, extra=("t", "d", "s"))
         self._ys = S.make_objects(mk, S.Other, "y", 2) if sp.get("binary") else []
@@ -161,28 +160,37 @@ class C12(Case):
             self._ys = [S.Other(name="p%d" % j) for j in range(2)]
             for j, po in enumerate(self._ys):
                 po.ref = mk.ref("p%d.ref" % j, items)
-        data = dict(items=items, res=None, ys=self._ys)
+        return dict(items=items, res=None, ys=self._ys)
+
+    def build_and_evaluate(self, items, evaluations=1):
+        """Build the rule tree afresh through the public API and evaluate it `evaluations` times."""
+        sp = self.spec
+        tree = sp["tree"]
+        self._yvars = {}
+        with symbolic_mode():
+            x = let(Item, domain=items)
+            if sp.get("join"):
+                self._pvar = let(S.Other, domain=self._ys)
+                q = an(entity(v := let(Concl), cond_expr(x, tree[0]["i"]), self._pvar.ref == x))
+            elif sp.get("spelling") == "infer":
+                q = infer(v := let(Concl), cond_expr(x, tree[0]["i"]))
+            else:
+                q = an(entity(v := let(Concl), cond_expr(x, tree[0]["i"])))
+        with rule_mode(q):
+            self.emit_body(tree[0], v, x)
+            for m in tree[1:]:
+                with alternative(self.node_cond(m, x)):
+                    self.emit_body(m, v, x)
+        return [self._view(list(q.evaluate()), items) for _ in range(evaluations)]
+
+    def run(self, mk):
+        sp = self.spec
+        data = self.prepare(mk)
         if sp.get("cache") == "off":
             disable_caching()
         try:
-            with symbolic_mode():
-                x = let(Item, domain=items)
-                if sp.get("join"):
-                    self._pvar = let(S.Other, domain=self._ys)
-                    q = an(entity(v := let(Concl), cond_expr(x, tree[0]["i"]), self._pvar.ref == x))
-                elif sp.get("spelling") == "infer":
-                    q = infer(v := let(Concl), cond_expr(x, tree[0]["i"]))
-                else:
-                    q = an(entity(v := let(Concl), cond_expr(x, tree[0]["i"])))
-            with rule_mode(q):
-                self.emit_body(tree[0], v, x)
-                for m in tree[1:]:
-                    with alternative(self.node_cond(m, x)):
-                        self.emit_body(m, v, x)
-            res = list(q.evaluate())
-            out = self._view(res, items)
-            if sp.get("twice"):
-                out = [out, self._view(list(q.evaluate()), items)]
+            outs = self.build_and_evaluate(data["items"], 2 if sp.get("twice") else 1)
+            out = outs if sp.get("twice") else outs[0]
         except Exception as e:
             enable_caching()
             return data, ["exc", type(e).__name__, str(e)[:200]]
